@@ -43,10 +43,66 @@ def states(tier, seed):
         # every inertial load source ALONE: without structural weight relief (the load factor reaches each source by its own wiring)
         if pf == "swept" and (fm is not None or pm != "none") and not (fm is not None and pm != "none" and tier == "quick"):
             st.append(dict(pf=pf, side=side, ny=ny, model=model, nfac=nfac, fuel=fm, reserve=res, pm=pm, relief=False, fam=fam))
+    # the same identities inside a two-surface AerostructPoint: every surface that carries inertial loads sees the load factor of the flight point
+    for sym, (sw, st_), nfac, same, model in itertools.product([True, False], [("relief", "relief"), ("relief", "none"), ("none", "relief"), ("fuel", "relief"), ("relief", "fuel"), ("fuel", "fuel")], [2.5, -1.0], [True, False], ["tube", "wingbox"]):
+        if "fuel" in (sw, st_) and model == "tube":
+            continue
+        st.append(dict(part="aspoint", sym=sym, src=(sw, st_), nfac=nfac, same=same, model=model, fam=fam))
     return st, 0
 
 
 def run_state(s):
+    if s.get("part") == "aspoint":
+        return part_aspoint(s)
+    return part_alone(s)
+
+
+def part_aspoint(s):
+    sym, fam, n = s["sym"], s["fam"], s["nfac"]
+    side = "left" if sym else "full"
+    ny = 3 if sym else 5
+    mesh1 = gen.make_mesh("twdi", 2, ny, side, fam, asym=not sym, span=10.0, chord=1.6)
+    mesh2 = gen.make_mesh("swept", 2, ny if s["same"] else (2 if sym else 3), side, fam, asym=not sym, span=6.0, chord=1.1, offset=[6.0, 0.0, 0.8])
+    surfs = []
+    for k, (name, mesh, src) in enumerate([("wing", mesh1, s["src"][0]), ("tail", mesh2, s["src"][1])]):
+        kw = dict(struct_weight_relief=src in ("relief", "fuel"), distributed_fuel_weight=src == "fuel")
+        sf = builders.struct_surface(name, mesh, sym, s["model"], **kw)
+        sf["mrho"] = sf["mrho"] * (1.0 + 0.3 * k)
+        surfs.append(sf)
+    fl = dict(Mach_number=0.4, W0=2.0e3, v=90.0, rho=0.9, alpha=3.0, speed_of_sound=220.0, R=2.0e6, load_factor=n, fuel_mass=4.0e3)
+    p = builders.build_aerostruct(surfs, fl)
+    builders.tighten(p, nl="default", lin="default")
+    p.run_model()
+    viol, val = [], 0
+    mult = 2.0 if sym else 1.0
+    for sf, src in zip(surfs, s["src"]):
+        nm = sf["name"]
+        if src == "none":
+            continue
+        nodes = p[nm + ".nodes"]
+        me = p[nm + ".element_mass"]
+        mid = 0.5 * (nodes[1:] + nodes[:-1])
+        checks = []
+        L = p["AS_point_0.coupled.%s.struct_states.struct_weight_loads" % nm]
+        W = n * G0 * me.sum()
+        checks.append(("struct_weight_loads", L, np.array([0, 0, -W]), np.cross(mid, np.outer(me, [0, 0, -n * G0])).sum(axis=0), abs(W)))
+        if src == "fuel":
+            vols = p[nm + ".struct_setup.fuel_vols"]
+            Wf = (4.0e3 + sf["Wf_reserve"]) * G0 * n / mult
+            L = p["AS_point_0.coupled.%s.struct_states.fuel_weight_loads" % nm]
+            checks.append(("fuel_weight_loads", L, np.array([0, 0, -Wf]), np.cross(mid, np.outer(vols / vols.sum(), [0, 0, -Wf])).sum(axis=0), abs(Wf)))
+        for name, L, Fw, Mw, sc in checks:
+            F = L[:, :3].sum(axis=0)
+            M = (np.cross(nodes, L[:, :3]) + L[:, 3:]).sum(axis=0)
+            for what, got, want, scale in (("sum", F, Fw, sc), ("moment", M, Mw, sc * np.abs(nodes).max())):
+                val += 1
+                e = np.abs(got - want).max() / scale
+                if not e <= TOL:
+                    viol.append(dict(sig=dict(oracle="conservation", observable="%s %s" % (what, name), group="AerostructPoint", surf=nm), msg="two-surface AerostructPoint (%s/%s, load factor %g): %s of %s on surface %s = %s, expected %s (rel %.2e)" % (s["src"][0], s["src"][1], n, what, name, nm, np.array2string(got, precision=8), np.array2string(want, precision=8), e), measure=float(e)))
+    return dict(viol=viol, nontrivial=bool(val > 0), digest=digest_arrays(p["AS_point_0.coupled.wing.disp"], p["AS_point_0.coupled.tail.disp"]), transitions=1, validated=val)
+
+
+def part_alone(s):
     import openmdao.api as om
     from openaerostruct.structures.wingbox_fuel_vol_delta import WingboxFuelVolDelta
 
